@@ -268,7 +268,9 @@ class C01(Check):
     theorems = ["Pox.C01.pack_eq_unpack", "Pox.C01.pack_eq_spec", "Pox.C01.len_eq", "Pox.C01.untranslated_pinned",
                 "Pox.C01.irregular_pinned", "Pox.C01.registry_messages", "Pox.C01.registry_actions", "Pox.C01.registry_stats",
                 "Pox.C01.registry_queue_props", "Pox.C01.registry_total", "Pox.C01.roundtrip", "Pox.C01.actions_stream",
-                "Pox.C01.packet_out_roundtrip", "Pox.C01.match_roundtrip", "Pox.C01.match_nonnormal_witness", "Pox.C01.nxm_roundtrip", "Pox.C01.nx_match_roundtrip",
+                "Pox.C01.uncovered_pinned", "Pox.C01.packet_out_roundtrip", "Pox.C01.flow_mod_data_roundtrip",
+                "Pox.C01.stats_reply_list_roundtrip", "Pox.C01.stats_body_roundtrip", "Pox.C01.nx_flow_mod_roundtrip",
+                "Pox.C01.nxt_packet_in_roundtrip", "Pox.C01.match_roundtrip", "Pox.C01.match_roundtrip_fm", "Pox.C01.match_nonnormal_witness", "Pox.C01.nxm_roundtrip", "Pox.C01.nx_match_roundtrip",
                 "Pox.Layout.decode_encode", "Pox.Layout.encode_length", "Pox.Layout.lenfield_exact", "Pox.Layout.codecAt_good",
                 "Pox.Spec.OF10.sizes_ok"]
     anchors = [("pox/openflow/libopenflow_01.py", 102, 142), ("pox/openflow/libopenflow_01.py", 194, 203),
@@ -290,15 +292,17 @@ class C01(Check):
                   "openflow.h layout (decide), __len__ = size of the layout, all 22 message / 13 action / 7 stats / 2 queue-property codes registered to the class with the "
                   "standard's structure; generic theorem roundtrip: for all field values, list lengths, nesting depths and trailing bytes decode(encode r ++ tl) = (r, tl), "
                   "len = __len__, header length field = byte count, re-encode reproduces the bytes. Irregular/untranslated classes are pinned by name.")
-    level_note = ("Proved for ALL inputs: generic Layout round trip + length-field exactness at any nesting depth (roundtrip, actions_stream), "
-                  "packet_out_roundtrip, match_roundtrip (both modes, for normal in-range matches; match_nonnormal_witness shows the hypothesis is needed), "
-                  "NXM TLV framing (nxm_roundtrip, nx_match_roundtrip). By `decide` over data regenerated from the source on every run: pack layout = unpack layout = "
-                  "openflow.h layout, __len__, registries, pinned irregular/untranslated lists. NOT proved, tested only by the correspondence run and the oracle: "
-                  "match_roundtrip_fm_full (flow_mod mode for non-normal matches: decoded == fix(m)), NXM field semantics (value/mask conversions, prerequisites), "
-                  "the Nicira classes outside the vocabulary (nx_flow_mod, nxt_packet_in, nx_action_bundle/learn, nx_output_reg, nx_reg_move/load, ofp_flow_mod_table_id), "
-                  "ofp_flow_mod's `data` magic (barrier + packet_out appended), the stats request/reply body dispatch (bodies are proved as classes of their own), Python __eq__. "
-                  "Readings recorded: matches are read over Normal ones; an all-ones NXM mask is the same entry as no mask; ofp_action_output is read after pack() has "
-                  "normalised max_len. Trusted: Lean kernel, Spec/OF10Layouts.lean transcription, the translator's canonicalisation (checked by bytes on every run), hand models.")
+    level_note = ("Proved for ALL inputs: generic Layout round trip + length-field exactness at any nesting depth (roundtrip, actions_stream); "
+                  "packet_out_roundtrip; flow_mod_data_roundtrip (the `data` magic: 1 or 3 framed messages, buffer_id taken from the packet-in, barrier + re-injecting packet-out); "
+                  "stats_reply_list_roundtrip / stats_body_roundtrip (body dispatch by type code, list bodies with nested actions); match_roundtrip (both modes, normal matches) and "
+                  "match_roundtrip_fm (flow_mod mode, EVERY in-range match decodes to fix(m)); NXM TLV framing (nxm_roundtrip, nx_match_roundtrip); nx_flow_mod_roundtrip, "
+                  "nxt_packet_in_roundtrip. By `decide` over data regenerated from the source on every run: pack layout = unpack layout = openflow.h layout, __len__, registries, "
+                  "pinned irregular / untranslated / uncovered lists. NOT proved, tested only by the correspondence run and the oracle: NXM field semantics (value/mask conversions, "
+                  "prerequisites), the classes of uncovered_pinned (nx_output_reg, nx_reg_move, nx_reg_load: layout checked and bytes compared through the model, values computed from NXM "
+                  "classes; nx_action_bundle, nx_action_learn/flow_mod_spec, ofp_flow_mod_table_id: oracle only), nx_flow_mod's own `data` magic, Python __eq__. "
+                  "Readings recorded: plain-mode matches are read over Normal ones; an all-ones NXM mask is the same entry as no mask; ofp_action_output is read after pack() has "
+                  "normalised max_len. The property oracle (incl. the comparison with the openflow.h layout) is pure Python over the parsed text of Spec/OF10Layouts.lean and works "
+                  "when the Lean build is broken. Trusted: Lean kernel, Spec/OF10Layouts.lean transcription, the translator's canonicalisation (checked by bytes on every run), hand models.")
     rule = ("case = one codec object described as a JSON spec built from the library's own classes; corpus = per-field boundary sweep {0,1,max,sign bit} of every translated class, "
             "strings of every length, action lists 0..8183, payloads 0..1500, stats replies with 0..40 entries, every NXM type with/without mask; "
             "non-trivial = pack() produced bytes and the object has at least one non-default field")
